@@ -25,7 +25,7 @@ def result_kind(r):
 class ParamsProp(Prop):
     # set by subclasses when a proved refinement theorem makes the model's output the
     # property's mandated output, so that a disagreement is a concrete failing input
-    model_is_spec = False
+    model_is_spec = True
     check_rerender = False
 
     def judge(self, req, impl, reply):
@@ -60,8 +60,18 @@ class ParamsProp(Prop):
             if not oracle:
                 why.append("re-rendering the rendered parameters changed them")
         agree = a1 and a2
-        return dict(agree=agree, spec_ok=None, impl_oracle=oracle, why="; ".join(why),
-                    concrete=(not agree) and self.model_is_spec)
+        # The theorems show that the model's outcome is the one the property mandates. A
+        # disagreement is a concrete failing input when the implementation returns a different
+        # value, or a value where an error is mandated (or the reverse); two different errors
+        # only show that the correspondence is broken.
+        concrete = oracle is False
+        if not agree and self.model_is_spec:
+            for part in ("merged", "rendered"):
+                ki = core.norm_result(impl.get(part), True)[0]
+                km = core.norm_result(model.get(part), False)[0]
+                if not core.results_agree(impl.get(part), model.get(part)) and not (ki == "err" and km == "err"):
+                    concrete = True
+        return dict(agree=agree, spec_ok=None, impl_oracle=oracle, why="; ".join(why), concrete=concrete)
 
     def tags(self, req, impl, reply):
         if req.get("op") != "params" or not isinstance(impl, dict):
